@@ -1012,6 +1012,13 @@ package engine
 //@   property C03
 //@   nosafety
 //@   ensures[a-promise] promise != nil
+//@   bind ie = InstantiationError#1
+//@   bind unb = Error#1
+//@   at-call InstantiationError requires[only-an-unbound-goal-is-an-instantiation-error] resolve(env, goal) is Variable && a0 == env
+//@   at-call Error#1 requires[the-instantiation-error-is-the-error-raised] called(ie) && a0 is Exception && (a0 as Exception) == ie
+//@   ensures[an-unbound-goal-is-an-instantiation-error-and-nothing-is-run] resolve(env, goal) is Variable ==> called(unb) && promise == unb
+//@   at-call compile requires[a-goal-that-is-not-unbound-is-compiled-so-that-a-non-callable-one-is-refused-there] !(resolve(env, goal) is Variable)
+//@   at-call Error#3 requires[what-compile-refuses-is-the-error-raised] called(cerr) && cerr != nil && a0 == cerr
 //@   bind cs, cerr = compile#1
 //@   at-call clauses.call requires[one-off-procedure-compiled-from-the-goal] cerr == nil && a0 == cs && a1 == vm && a3 == k && a4 == env
 //@   bind hargs, herr = makeSlice#1
@@ -2888,10 +2895,24 @@ package engine
 //@   property C11
 //@   nosafety
 //@   trusted-frame
-//@   checks only maintains at-call at-call-missing
+//@   checks only maintains at-call at-call-missing inv-entry inv-keep post
 //@   bind grp = append#3
+//@   bind alts = Delay#1
+//@   ensures[the-answers-are-exactly-the-alternatives-made-for-the-groups] called(alts) && result == alts
+//@   bind sl, serr = slice#1
 //@   loop 1 invariant true
 //@   loop 2 invariant true
+//@   loop 1 invariant[without-a-solution-there-is-no-group] len(sl) == 0 ==> len(local(s, []Term)) == 0 && len(ks) == 0
+//@   loop 1 invariant[with-a-solution-there-is-a-group-or-a-solution-still-to-be-grouped] len(sl) > 0 ==> len(local(s, []Term)) > 0 || len(ks) > 0
+//@   at-call slice requires[the-solutions-are-read-from-the-variable-findall-bound-under-the-bindings-findall-continued-with] a0 == s && a1 == env
+//@   at-call Delay requires[no-solution-no-alternative-so-bagof-and-setof-fail] len(sl) == 0 ==> len(a0) == 0
+//@   at-call Delay requires[a-solution-gives-at-least-one-alternative] len(sl) > 0 ==> len(a0) > 0
+//@   at-call variant requires[witnesses-are-compared-under-the-bindings-findall-continued-with] a2 == local(env, *Env)
+//@   at-call Compound.Arg#1 requires[the-witness-of-the-first-solution-of-a-group-is-the-first-argument-of-its-pair] a0 == wt && a1 == 0
+//@   at-call Compound.Arg#2 requires[its-template-instance-is-the-second] a0 == wt && a1 == 1
+//@   at-call Compound.Arg#3 requires[the-witness-of-a-remaining-solution-is-the-first-argument-of-its-pair] a0 == local(e, Compound) && a1 == 0
+//@   at-call Compound.Arg#4 requires[its-template-instance-is-the-second] a0 == local(e, Compound) && a1 == 1
+//@   at-call append#3 requires[a-group-s-alternative-comes-after-those-of-the-groups-started-earlier] a0 == ks && len(a1) == 1
 //@   loop 1 maintains[every-group-of-solutions-becomes-an-alternative] called(grp)
 //@   at-call Delay requires[every-group-is-offered-to-the-caller] a0 == ks
 //@   at-call variant requires[each-remaining-solution-s-witness-is-compared-with-the-witness-of-the-group-s-first-solution] a0 == ww && a1 == w
@@ -2902,10 +2923,17 @@ package engine
 //@   property C11
 //@   nosafety
 //@   trusted-frame
-//@   checks only at-call at-call-missing
+//@   checks only at-call at-call-missing maintains inv-entry inv-keep
 //@   loop 1 invariant true
 //@   at-call (*Env).Unify requires[the-free-variables-of-the-goal-are-bound-to-the-witness-of-each-solution-of-the-group] a1 == witness && a2 == w
 //@   at-call engine.Unify requires[the-group-is-unified-with-the-caller-s-result-for-the-caller-s-continuation] a2 == instances && a3 == k
+//@   at-call engine.Unify requires[under-the-bindings-of-the-group-s-witnesses] a4 == local(env, *Env)
+//@   bind u, uok = (*Env).Unify#1
+//@   loop 1 maintains[each-witness-is-bound-on-top-of-the-previous-ones] called(u) && argof(u, 0) == local(env, *Env)
+//@   loop 1 invariant[the-bindings-of-each-witness-are-kept-for-the-next] called(u) ==> local(env, *Env) == u
+//@   never-calls List
+//@   never-calls (*Env).set
+//@   at-call dynamic requires[the-aggregator-given-makes-the-result-from-the-group-s-instances-under-the-bindings-of-the-group-s-witnesses] fn == agg && a0 == tList && a1 == local(env, *Env)
 
 //@ func (*VM).directive
 //@   property C13 C20
